@@ -77,6 +77,7 @@ type c06In struct {
 	Cls      string `json:",omitempty"`
 	Variant  int    `json:",omitempty"`
 	Seed     int64  `json:",omitempty"`
+	IDKey    string `json:",omitempty"` // transport identity of the hostile host: "" secp256k1 | ed25519 | rsa | ecdsa
 	// e2e-stress
 	DurMs     int `json:",omitempty"` // how long the hostile hosts keep going
 	Hammers   int `json:",omitempty"` // hosts opening and abandoning handshake streams
@@ -284,6 +285,28 @@ func c06SharedService() *Service {
 		c06Shared = s
 	}
 	return c06Shared
+}
+
+// c06RawHostID: a raw host whose transport identity is of the given key type (the secp256k1 key k is then
+// only used to sign handshake requests).
+func c06RawHostID(k *ecdsa.PrivateKey, idKey string, r *rand.Rand) (host.Host, error) {
+	typ := -1
+	switch idKey {
+	case "ed25519":
+		typ = libp2pcrypto.Ed25519
+	case "rsa":
+		typ = libp2pcrypto.RSA
+	case "ecdsa":
+		typ = libp2pcrypto.ECDSA
+	}
+	if typ < 0 {
+		return c06RawHost(k)
+	}
+	pk, _, err := libp2pcrypto.GenerateKeyPairWithReader(typ, 2048, r)
+	if err != nil {
+		return nil, err
+	}
+	return golibp2p.New(golibp2p.Identity(pk), golibp2p.ListenAddrStrings("/ip4/127.0.0.1/tcp/0"), golibp2p.DisableRelay())
 }
 
 func c06RawHost(k *ecdsa.PrivateKey) (host.Host, error) {
@@ -542,7 +565,7 @@ func c06RunE2E(in c06In, slow time.Duration) (obs c06Obs) {
 	topo.SetAnnouncer(disc)
 	svc.SetNotifier(topo)
 	svc.AddStreamHandlers(disc.Streams()...)
-	adv, err := c06RawHost(advKey)
+	adv, err := c06RawHostID(advKey, in.IDKey, r)
 	if err != nil {
 		return c06Obs{Res: 2, Note: "raw host: " + err.Error()}
 	}
@@ -564,7 +587,7 @@ func c06RunE2E(in c06In, slow time.Duration) (obs c06Obs) {
 	} else {
 		c06Respond(adv, advKey, foreign, svc, in.Cls, in.Variant, r)
 		info, _ := peer.AddrInfo{ID: adv.ID(), Addrs: adv.Addrs()}.MarshalJSON()
-		if in.Cls == "E2UnknownRole" {
+		if in.Cls == "E2UnknownRole" || (in.IDKey != "" && in.Variant%2 == 0) {
 			// as in production: the underlay arrives in a gossiped peer list, discovery's worker dials
 			// it and hands the resulting peer to the topology
 			raw, _ := proto.Marshal(&discoverypb.PeerList{Peers: []*discoverypb.PeerInfo{{
@@ -572,7 +595,9 @@ func c06RunE2E(in c06In, slow time.Duration) (obs c06Obs) {
 			if err := disc.Streams()[0].Handler(ctx, p2p.Peer{Type: p2p.PeerTypeBootnode}, &c06ListStream{raw: raw}); err != nil {
 				note = "peer list: " + err.Error()
 			}
-			if !c06Until(10*time.Second*slow, registered) {
+			if fails {
+				c06AwaitFailure(svc, true, slow)
+			} else if !c06Until(10*time.Second*slow, registered) {
 				return c06Obs{Res: 1, Note: c06Short("the valid handshake did not register the peer; " + note)}
 			}
 		} else {
@@ -793,7 +818,7 @@ func c06CoqE2E(in c06In) string {
 	return coqApp(ctor, coqBool(in.Registry), in.Cls)
 }
 
-var c06Classes = []string{"E2Honest", "E2Garbage", "E2ForeignSig", "E2ShortSig", "E2CloseEarly", "E2Oversized", "E2WrongType", "E2BadEcho", "E2UnknownRole"}
+var c06Classes = []string{"E2Honest", "E2Garbage", "E2ForeignSig", "E2ShortSig", "E2CloseEarly", "E2Oversized", "E2WrongType", "E2BadEcho", "E2UnknownRole", "E2NonSecpIdentity"}
 
 func c06ValidClass(c string) bool {
 	for _, k := range c06Classes {
@@ -1244,7 +1269,8 @@ func TestVerifC06(t *testing.T) {
 				if in.DurMs > 0 && in.DurMs <= 120000 && in.Hammers >= 0 && in.Hammers <= 16 && in.Streamers >= 0 && in.Streamers <= 16 {
 					children = append(children, pending{class, in})
 				}
-			} else if c06ValidClass(in.Cls) {
+			} else if c06ValidClass(in.Cls) && (in.Cls != "E2NonSecpIdentity" || in.IDKey != "") &&
+				(in.IDKey == "" || in.IDKey == "ed25519" || in.IDKey == "rsa" || in.IDKey == "ecdsa") {
 				children = append(children, pending{class, in})
 			}
 			return
@@ -1326,12 +1352,37 @@ func TestVerifC06(t *testing.T) {
 	}
 	for k := 0; k < rounds; k++ {
 		for ci, cls := range c06Classes {
+			if cls == "E2NonSecpIdentity" {
+				continue // below, per key type
+			}
 			run("e2e-inbound-"+cls, c06In{Pkg: c06Pkg, Entry: "e2e-inbound", Cls: cls, Variant: k + ci, Seed: r.Int63()})
 			if full || ci%3 == 1 || cls == "E2UnknownRole" {
 				run("e2e-outbound-"+cls, c06In{Pkg: c06Pkg, Entry: "e2e-outbound", Cls: cls, Variant: k, Seed: r.Int63()})
 			}
 			if full || ci == 2 {
 				run("e2e-inbound-"+cls, c06In{Pkg: c06Pkg, Entry: "e2e-inbound", Registry: true, Cls: cls, Variant: k + ci, Seed: r.Int63()})
+			}
+		}
+	}
+	// remotes whose transport identity is not a secp256k1 key: (a) a correctly signed request, (b) garbage;
+	// inbound, and outbound both through a gossiped underlay (even variant) and a direct Connect (odd)
+	for k := 0; k < rounds; k++ {
+		for ki, idKey := range []string{"ed25519", "rsa", "ecdsa"} {
+			mk := func(entry, cls string, variant int, reg bool) c06In {
+				return c06In{Pkg: c06Pkg, Entry: entry, Cls: cls, Variant: variant, Seed: r.Int63(), IDKey: idKey, Registry: reg}
+			}
+			// with a registry, so that a crash is not keyed as the missing-counters defect
+			run("e2e-inbound-identity-"+idKey, mk("e2e-inbound", "E2NonSecpIdentity", k, true))
+			if full || ki == 0 {
+				run("e2e-inbound-identity-"+idKey+"-garbage", mk("e2e-inbound", "E2Garbage", k+ki, true))
+			}
+			if full || ki < 2 {
+				run("e2e-outbound-identity-"+idKey, mk("e2e-outbound", "E2NonSecpIdentity", k+ki, true))
+			}
+			if full {
+				run("e2e-outbound-identity-"+idKey, mk("e2e-outbound", "E2NonSecpIdentity", k+ki+1, false))
+				run("e2e-outbound-identity-"+idKey+"-garbage", mk("e2e-outbound", "E2Garbage", k+ki, true))
+				run("e2e-inbound-identity-"+idKey, mk("e2e-inbound", "E2NonSecpIdentity", k, false))
 			}
 		}
 	}
